@@ -48,7 +48,13 @@ func verifRuleIn(r *rules.NetworkRule, rs []*rules.NetworkRule) bool {
 // $domain values); domLen is the length of each $domain value; the request has a URL of
 // urlLen symbolic bytes and a source host of srcLen symbolic bytes plus tail.
 func verifC01(n, shape, domLen, urlLen, srcLen, srcTail int) {
-	u := verifString("url", urlLen, "ab:/")
+	// domLen >= 100 selects the alphabet of URL-like shortcuts ("http", "ws:", ... see isAnyURLShortcut)
+	rules.VerifTableAlphabet = "ab:/"
+	if domLen >= 100 {
+		domLen -= 100
+		rules.VerifTableAlphabet = "htps:/w"
+	}
+	u := verifString("url", urlLen, rules.VerifTableAlphabet)
 	src := ""
 	if srcLen >= 0 {
 		src = verifString("src", srcLen, "zq.")
